@@ -574,6 +574,10 @@ class Explorer(object):
                         on_end(ctx, outcome)
                 except Infeasible:
                     self.paths.append(('infeasible', list(ctx.decisions), None))
+                except Raised as e:
+                    # an exception of the analysed code that the task did not expect: never a verdict about the repository by itself
+                    self.undecided_reason = 'analysed code raised %r outside any handler the contract anticipates' % (e.exc,)
+                    self.paths.append(('undecided', list(ctx.decisions), self.undecided_reason))
                 except Undecided as e:
                     self.undecided_reason = str(e)
                     self.paths.append(('undecided', list(ctx.decisions), str(e)))
